@@ -281,7 +281,11 @@ def model_lines(case, built):
         ids = sorted(built.files, key=lambda s: int(s[1:]))
         if r.get("missing"):
             ids = ids[-1:]
-        return core.file_lines(built.files) + [f"vhdx.stream {a} {len(ids)} " + " ".join(ids) + " " + toks]
+            return core.file_lines(built.files) + [f"vhdx.stream {a} {len(ids)} " + " ".join(ids) + " " + toks]
+        # second line: the executable hypotheses of vhdx_chain_reads_as_overlay (chainWfb) and the model's answers
+        # compared with the pointwise specification overlay(chainLayers) — an instance of the theorem on this chain
+        return core.file_lines(built.files) + [f"vhdx.stream {a} {len(ids)} " + " ".join(ids) + " " + toks,
+                                               f"vhdx.chaincheck {a} {len(ids)} " + " ".join(ids) + " " + toks]
     if fam == "hdd":
         st = built.info["tokens"]
         if built.info["missing"]:
@@ -318,6 +322,16 @@ def model_parse(case, built, out):
         ans = (a + b) if a is not None and b is not None and a[-1:] != ["E"] else a
         return {"answers": ans, "wf": ans is not None}
     ans = core.parse_stream_answer(out[0]) if out else None
+    if fam == "vhdx" and not case["recipe"].get("missing"):
+        chk = out[1].split() if len(out) > 1 else []
+        if len(chk) >= 3 and chk[0] == "ok":
+            wf = chk[1] == "wf=1"
+            marks = chk[3:]
+            if wf and (any(m != "=" for m in marks) or len(marks) != len(ans or [])):
+                # inside the theorem's hypotheses the model must equal the specification: report as a model difference
+                return {"answers": ["SPEC-MISMATCH"] + marks, "wf": wf, "spec_checked": len(marks)}
+            return {"answers": ans, "wf": wf, "spec_checked": len(marks) if wf else 0}
+        return {"answers": ans, "wf": False if chk and chk[0] == "err" else None}
     return {"answers": ans, "wf": ans is not None and ans != ["E"]}
 
 
